@@ -8,6 +8,12 @@ CONSTANTS
   MaxAsk = 1
   AskSelectsQuit = TRUE
   ResetStopsUnderLock = FALSE
+  Counters = FALSE
+  MaxCollects = 0
+  MaxCfg = 1
+  FreeDestroys = FALSE
+  FreeHoldsCounterLock = FALSE
+  UpdateLosesDefaults = FALSE
   FixCallEntry = TRUE
   FixResetSnapshot = TRUE
   FixRemoveOwn = TRUE
